@@ -116,6 +116,23 @@ def run(prog: Program, ctx: Ctx) -> None:  # noqa: PLR0912,PLR0915
                     continue
                 seen_bad.add(cls_key)
             ctx.ob("R1", f"mro|{desc}|C4", got == exp, f"{desc}: mro(C4) = {got}; CPython: {exp}", where(mro_fn), nontrivial=True)
+    # the cycle test is about classes, not about how their paths are spelled: chains whose paths are textual suffixes / prefixes of one another
+    for label, paths in (("each path is a suffix of the next", ["c.Encoder", "codec.Encoder", "pkg.codec.Encoder", "app.pkg.codec.Encoder"]),
+                         ("each path is a prefix of the next", ["m.C1", "m.C10", "m.C100", "m.C1000"]),
+                         ("same name in nested scopes", ["m.K", "m.K.K", "m.K.K.K", "m.K.K.K.K"])):
+        objs = []
+        for i_, pth in enumerate(paths):
+            o = Obj(ccls, {"name": pth.rsplit(".", 1)[-1], "path": pth, "is_class": True, "is_alias": False, "members": {}, "parent": None}, label=pth)
+            o.attrs["resolved_bases"] = [objs[-1]] if objs else []
+            objs.append(o)
+        it.steps = 0
+        try:
+            got = [c.attrs["path"] for c in it.call(mro_fn, objs[-1])]
+        except Raised as r:
+            got = f"raises {r.exc}"
+        exp = list(reversed(paths[:-1]))
+        rows += 1
+        ctx.ob("R1", f"mro|paths|{label}", got == exp, f"single-inheritance chain {' <- '.join(paths)}: mro of the last = {got}; CPython: {exp}", where(mro_fn))
     ctx.expect_min("R1", rows, 150)
     ctx.analysed["hierarchies_rows"] = rows
 
@@ -170,8 +187,12 @@ def run(prog: Program, ctx: Ctx) -> None:  # noqa: PLR0912,PLR0915
     ctx.rule("R3", "inherited_members: for every name defined along the MRO and not by the class itself, the alias wraps the member of the *first* "
                    "class in MRO order that defines it, is parented to the subclass and marked inherited; own members are never included")
     acls = prog.cls(f"{M}.Alias")
+    member_kind = ["object"]
+
     def member(owner: str, name: str) -> Obj:
-        return Obj(None, {"name": name, "path": f"m.{owner}.{name}", "is_alias": False, "aliases": {}}, label=f"{owner}.{name}")
+        # what a class body defines or imports: a definition, or a name imported there whose target has / has not been looked up yet
+        k_ = member_kind[0]
+        return Obj(None, {"name": name, "path": f"m.{owner}.{name}", "is_alias": k_ != "object", "resolved": k_ == "resolved import", "aliases": {}}, label=f"{owner}.{name}")
 
     layouts = [
         {"D": ["x"], "B": ["x", "y"], "A": ["y", "z"]},   # D(B, A) style: mro D,B,A
@@ -180,7 +201,8 @@ def run(prog: Program, ctx: Ctx) -> None:  # noqa: PLR0912,PLR0915
         {"D": [], "B": [], "A": []},
         {"D": [], "B": [], "C": ["f"], "A": ["f", "g"]},  # diamond D(B, C), B(A), C(A): C overrides A.f, B only inherits it
     ]
-    for li, lay in enumerate(layouts):
+    for (li, lay), mk_ in itertools.product(enumerate(layouts), ("object", "unresolved import", "resolved import")):
+        member_kind[0] = mk_
         order = list(lay)  # D first: the class itself, then its MRO
         objs = {}
         for cname in order:
@@ -216,7 +238,7 @@ def run(prog: Program, ctx: Ctx) -> None:  # noqa: PLR0912,PLR0915
                               al.attrs.get("inherited") if isinstance(al, Obj) else None, al.attrs.get("name") if isinstance(al, Obj) else None,
                               al.cls is acls if isinstance(al, Obj) else False)
             ok = ok and all(detail[n_] == (want[n_], True, True, n_, True) for n_ in want)
-        ctx.ob("R3", f"inherited|layout{li}:{lay}", ok, f"inherited members of {order[0]} with MRO {order[1:]}: {detail if isinstance(got, dict) else got}; expected nearest definitions {want}", where(im))
+        ctx.ob("R3", f"inherited|layout{li}:{lay}|members are {mk_}s", ok, f"inherited members of {order[0]} with MRO {order[1:]} (members: {mk_}s): {detail if isinstance(got, dict) else got}; expected nearest definitions {want}", where(im))
 
     # ------------------------------------------------------------------ R4 frame
     ctx.rule("R4", "all_members = inherited members overlaid by own members (own wins); item access uses all_members, get_member uses members only; "
